@@ -101,7 +101,7 @@ class MCPServer:
         tool_name = params.get("name")
         arguments = params.get("arguments", {})
 
-        if tool_name not in self._tools:
+        if not isinstance(tool_name, str) or tool_name not in self._tools:
             return self.protocol_handler.create_error_response(
                 message.id, -32602, f"Unknown tool: {tool_name}"
             ), None
@@ -145,7 +145,7 @@ class MCPServer:
         params = message.params or {}
         uri = params.get("uri")
 
-        if uri not in self._resources:
+        if not isinstance(uri, str) or uri not in self._resources:
             return self.protocol_handler.create_error_response(
                 message.id, -32602, f"Unknown resource: {uri}"
             ), None
